@@ -73,7 +73,7 @@ def pts(rng, n, scale=8.0):
 def corpus():
     return _corpus() + [L.case("compiled_loops", [1], "corpus-compiled-loops"),
                        L.case("compiled_loops", [2], "corpus-compiled-loops"),
-                       L.case("jacobian_in_pieces", [70001, 121, 1], "corpus-long-table")]
+                       L.case("jacobian_in_pieces", [45001, 400, 1], "corpus-long-table")]
 
 
 def _corpus():
